@@ -938,7 +938,13 @@ impl Lexer<'_> {
             }
             c if is_valid_unicode_sas_name_start(c) => {
                 self.lex_identifier();
-                self.set_pending_stat(true);
+                // A datalines block is lexed as a whole, including the `;` that terminates it,
+                // so in that case the statement is already closed
+                let stat_closed = self
+                    .buffer
+                    .last_token_info()
+                    .is_some_and(|t| t.token_type == TokenType::SEMI);
+                self.set_pending_stat(!stat_closed);
             }
             _ => {
                 // Something else must be a symbol or some unknown character
